@@ -1277,7 +1277,7 @@ impl Gen {
     }
     fn function(&mut self, depth: u32) -> String {
         let name = match self.r.below(10) {
-            0 => self.pick(&["$", "a$", "\\if", "\"f g\"", "f-1", "2", "a=b\\", "$x", "~"]).to_string(),
+            0 => self.pick(&["$", "a$", "\\if", "\"f g\"", "f-1", "2", "a=b\\", "$x", "~", "~a$", "~$", "~a\\$"]).to_string(),
             1 => self.word(depth + 1),
             _ => self.name(),
         };
@@ -1348,6 +1348,21 @@ impl Gen {
         s
     }
     fn program(&mut self) -> String {
+        if self.chance(1, 25) && self.pending.is_empty() {
+            // a simple command that ends the text with an unquoted backslash,
+            // with a redirection before the last word
+            let r = self.redir(1);
+            let w = match self.r.below(5) {
+                0 => "~a".to_string(),
+                1 => format!("{}=~", self.name()),
+                2 => format!("{}=x", self.name()),
+                _ => self.name(),
+            };
+            let pre = if self.chance(1, 2) { format!("{}; ", self.simple(1)) } else { String::new() };
+            if self.pending.is_empty() {
+                return format!("{}{} {}\\", pre, r, w);
+            }
+        }
         let mut s = self.list(0, 3);
         if self.chance(1, 10) && !s.trim_end().ends_with('&') {
             s.push(';');
@@ -1480,6 +1495,15 @@ const CORPUS: &[&str] = &[
     "echo \"`a\\\\\n\nb`\"",
     "echo `a\\\\\n$b`",
     ">x foo\\",
+    // tilde names that end with a backslash or a dollar sign
+    ">x ~a\\",
+    ">x a=~b\\",
+    "<f x=~\\",
+    "~a$ () { :; }",
+    "~$ () { :; }",
+    ">y if >x\\",
+    "<f then >x\\",
+    "echo >x\\",
     // known finding F14 (open): `$((` fallback
     "(echo $(('(' ) ) )",
     "echo $((\\( ) ) ;",
@@ -1607,18 +1631,25 @@ fn coq_parsed(p: &Parsed, bodies: bool) -> String {
 
 /// The parser model covers everything but here-documents.  A text is inside
 /// the model's language if no `<<` / `<<-` operator can be lexed from it: after
-/// removing line continuations, every run of `<` has length 1 or 3.
+/// removing line continuations, every run of `<` has length 1 or 3 (and a run
+/// of 3 is not preceded by a backslash).
 fn in_model_domain(src: &str) -> bool {
-    let t = src.replace("\\\n", "");
-    let mut run = 0;
-    for c in t.chars().chain(std::iter::once(' ')) {
-        if c == '<' {
-            run += 1;
-        } else {
-            if run == 2 || run >= 4 {
+    let t: Vec<char> = src.replace("\\\n", "").chars().collect();
+    let mut i = 0;
+    while i < t.len() {
+        if t[i] == '<' {
+            let start = i;
+            while i < t.len() && t[i] == '<' {
+                i += 1;
+            }
+            let run = i - start;
+            // `\<<<` is an escaped `<` followed by `<<`
+            let escaped = start > 0 && t[start - 1] == '\\';
+            if run == 2 || run >= 4 || (run == 3 && escaped) {
                 return false;
             }
-            run = 0;
+        } else {
+            i += 1;
         }
     }
     true
